@@ -1226,6 +1226,14 @@ package netty
 // Each hypothesis is one of the per-function posts above (named in the comment), so a change that
 // breaks a post breaks the hypothesis the lemma needs; the lemma itself is discharged by SMT.
 //@ property C13
+// A listener is registered from Listen until its own first Close, so Shutdown's Range visits it or it
+// was closed before (and then the next lemma applies to that Close instead of Shutdown's):
+//   tStore < tRange                        Listen#registered_before_return (handed out only after the store)
+//   removed <=> tDelete < tRange           sync.Map
+//   tFirstClose < tDelete                  listener.Close#unregisters_only_on_first_close: the only Delete of the entry follows the
+//                                          critical section of the listener's first Close (nobody else owns the url meanwhile: Listen panics on duplicates)
+//   visited <=> !removed                   Range (assumed: visits every entry present throughout)
+//@ lemma listener_registered_until_closed(tStore int, tRange int, tFirstClose int, tDelete int, removed bool, visited bool) implies(tStore < tRange && iff(removed, tDelete < tRange) && tFirstClose < tDelete && iff(visited, !removed), visited || tFirstClose < tRange)
 // A listener registered when Shutdown ran: either it never creates an acceptor, or Shutdown closed it.
 //   tCancel < tCloseCS                     Shutdown#cancel_first + then_every_listener + Shutdown$1#closes_and_continues
 //   sawClosed  <=> tCloseCS < tListenCS    listener.Close#marks_closed (under the mutex; listener.closed is never reset: #protect:closed.storesconst)
